@@ -158,6 +158,7 @@ TAINT_CFGS = [
     ("d_ondemand", {"summarize-on-demand": True}, 0, "d_ondemand"),
     ("d_fs", {"field-sensitive": True}, 0, "d_fs"),
     ("d_esc", {"use-escape-analysis": True}, 0, "d_esc"),
+    ("d_pf", {"pkg-filter": "PF_MAIN_ONLY"}, 0, "d_pf"),  # summaries of the main package only: the others are built lazily
     ("d_md7", {"unsafe-max-depth": 7}, 0, "d_md7"),     # a depth bound: which paths are cut must not depend on the order
     ("d_ma1", {"summarize-on-demand": False, "max-alarms": 1}, 1, "d_eager"),
     ("d_ma2", {"summarize-on-demand": True, "max-alarms": 2}, 2, "d_ondemand"),
@@ -256,6 +257,8 @@ def run(ctx):
     def write_cfgs(d, repo_base=None):
         for name, opts, ma, _ in TAINT_CFGS:
             o = dict(opts)
+            if o.get("pkg-filter") == "PF_MAIN_ONLY":
+                o["pkg-filter"] = (optlib.PF_REPO if repo_base else optlib.PF_GENERATED)[2]
             o["log-level"] = 1
             o["reports-dir"] = os.path.join(d, "reports", name)
             if repo_base:
